@@ -609,8 +609,9 @@ def swap_handover(prog, chk, rid, classes=None):
                     anchored = True
                 st = q.stores(f)
                 T = lambda i: q.no_casts(f.r(i))
+                stored_from = lambda side_lhs, src_text, need_tmp: swap_stored_from(f, st, defs, side_lhs, src_text, need_tmp)
 
-                def stored_from(side_lhs, src_text, need_tmp):
+                def _unused(side_lhs, src_text, need_tmp):
                     """is there a store side_lhs = <value of src_text as of function entry>?"""
                     for s in st:
                         if s.op != "=" or T(s.lhs) != side_lhs or s.rhs is None:
@@ -816,3 +817,44 @@ def bucket_index(prog, chk, rid, classes=("HashMap", "HashSet", "PoolMap")):
                     chk.ok(rid, f, "capacity |= !capacity", "%s:%s" % (f.file, f.line), "zero is mapped to one")
                 else:
                     chk.bad(rid, f, "capacity-may-be-zero", "%s:%s" % (f.file, f.line), "constructor leaves capacity possibly 0: `h % capacity` divides by zero")
+
+
+def swap_stored_from(f, st, defs, side_lhs, src_text, need_tmp):
+    """is there a store side_lhs = <value of src_text as of function entry> (directly, or through a
+    temporary initialised from it before it was overwritten)?"""
+    T = lambda i: q.no_casts(f.r(i))
+    for s in st:
+        if s.op != "=" or T(s.lhs) != side_lhs or s.rhs is None:
+            continue
+        r = f.nodes[f.strip(s.rhs)]
+        if not need_tmp:
+            if T(s.rhs) == src_text:
+                over = [x for x in st if T(x.lhs) == src_text]
+                if all(not q.reaches(f, x.node, s.node) for x in over):
+                    return True
+        if r["k"] == "DeclRefExpr" and r["ref"]["dk"] == "local":
+            init = q.single_def(f, r["ref"]["id"], defs)
+            if init is not None and T(init) == src_text:
+                over = [x for x in st if T(x.lhs) == src_text]
+                if all(not q.reaches(f, x.node, init) for x in over):
+                    return True
+    return False
+
+
+def swap_plain(chk, rid, f, plain):
+    """both directions of a field-wise swap with `other` (the single parameter)"""
+    o = f.params[0]["n"]
+    defs = q.local_defs(f)
+    st = q.stores(f)
+    where = "%s:%s" % (f.file, f.line)
+    for fld in plain:
+        a = swap_stored_from(f, st, defs, "this->" + fld, "%s.%s" % (o, fld), False) or \
+            swap_stored_from(f, st, defs, "this->" + fld, "%s.%s" % (o, fld), True)
+        b = swap_stored_from(f, st, defs, "%s.%s" % (o, fld), "this->" + fld, True) or \
+            swap_stored_from(f, st, defs, "%s.%s" % (o, fld), "this->" + fld, False)
+        for ok, dsc in ((a, "this->%s = previous %s.%s" % (fld, o, fld)), (b, "%s.%s = previous this->%s" % (o, fld, fld))):
+            if ok:
+                chk.ok(rid, f, dsc, where, "store with the entry value of the source found")
+            else:
+                chk.bad(rid, f, "swap-misses:" + dsc.replace(o + ".", "other."), where,
+                        "swap does not perform `%s` with the value the source had on entry" % dsc)
